@@ -45,9 +45,9 @@ U32Lo == <<596000000, -16>>
 SlackFor(c, d, lamUp) == IF c.dt = "f64" THEN Slack(c, d, lamUp)
                          ELSE DMulDown(DMulDown(DFromInt(100 * c.n * c.p), U32Lo), CondLo(c, d, lamUp))
 \* lambda_hat <= lambda_max: the report is float32 (2^-23); under f32 the input itself is
-\* rounded to float32, which moves lambda_max by up to n * 2^-24 relative: allow 1e-5
+\* rounded to float32, which moves lambda_max by up to n * 2^-24 <= 1e-6 relative: allow 1e-4
 LamBound(c) == IF c.dt = "f64" THEN F32Up(LamMax(c))
-               ELSE DAddDown(F32Up(LamMax(c)), DShift(LamMax(c), -5))
+               ELSE DAddDown(F32Up(LamMax(c)), DShift(LamMax(c), -4))
 
 PcOf(a) == CASE a = "Mask" -> "call" [] a = "Deflate" -> "deflate" [] a = "Estimate" -> "estimate"
              [] a = "Size1" -> "size1" [] a = "Attempt" -> "loop" [] a = "ExitLoop" -> "loop"
